@@ -1072,6 +1072,11 @@ def class8(cx, st, r, desc, P, thorough):
     entry = {"check_index_map_validity": lambda m: cg.check_index_map_validity(m, grid),
              "coarsegrain_grid": lambda m: cg.coarsegrain_grid(grid, m),
              "coarsegrain_system": lambda m: cg.coarsegrain_system(system, m)}
+    # the same rules hold whichever public door the map comes through
+    from vf import engines as _eng
+    _eng.install()
+    entry["simulate(cgmap=)"] = lambda m: st.simulate(system, [0, 1e-4], engine=_eng.get("euler"), time_step=1e-4, cgmap=m)
+    entry["simulate_script(cgmap=)"] = lambda m: st.simulate_script(st.RDScript(system, [0, 1e-4], time_step=1e-4), _eng.get("euler"), cgmap=m)
     usable = {}
     for name, f in entry.items():
         ok, _ = cx.twin(8, lambda: f(list(im)), "%s(valid map %r)" % (name, im))
@@ -1102,7 +1107,7 @@ def class8(cx, st, r, desc, P, thorough):
             for form, mm in forms:
                 cx.judge(8, what, name, "%s(%s) with index_map = %r (%s; valid twin %r, cell_env %r)" % (name, "grid" if name != "coarsegrain_system" else "system",
                                                                                                             mm, text, im, env),
-                         lambda: f(mm), key=[what, name, form, m], state=(lambda: deep(system)) if name == "coarsegrain_system" else (lambda: deep(grid)))
+                         lambda: f(mm), key=[what, name, form, m], state=(lambda: deep(system)) if name != "coarsegrain_grid" and name != "check_index_map_validity" else (lambda: deep(grid)))
 
 
 # ---------------------------------------------------------------------------
